@@ -3,11 +3,25 @@
 
 def run(ctx):
     ctx.level = "other"
-    ctx.extra["explanation"] = ("No deductive obligation yet (set-of-sets reasoning over networkx graphs). Bounded stand-in: the real consensus command on families of trees over "
+    from contracts import c16_consensus as K
+    from pyvc.source import Repo
+
+    K.verify_all(ctx, Repo(), "C16")
+    if ctx.tier == "thorough":
+        from vcheck import lean as L
+
+        L.check_file(ctx, "MLaminar.lean", "C16")
+    ctx.extra["explanation"] = ("Deductive (any number of trees, clades, any threshold): clade_probabilities gives an arbitrary clade the support sum_i w_i [c in clades(tree_i)] "
+                                "(divided by the number of trees in counts mode); key_above_threshold keeps exactly the keys whose value strictly exceeds the threshold; "
+                                "find_smallest_superset returns a smallest strict superset among the candidates or None when there is none, and cannot raise when the supersets of the query form a chain; "
+                                "consensus adds every retained clade exactly once as a node (child of its smallest superset) and nothing else; get_consensus_tree chains the stages with the caller's threshold. "
+                                "Lean (thorough tier): two clade supports above 1/2 share a tree (counts and weights), nested-or-disjoint supersets of a common non-empty clade have different sizes. "
+                                "relabel / clean_tree / the conversion to a Tree and the table are not under contract. Bounded stand-in: the real consensus command on families of trees over "
                                 "3-4 data points (and the six-point family of finding F10), both weightings, thresholds {0.5,0.6,0.75,1}; result clades must equal the clades "
                                 "whose independently computed support strictly exceeds the threshold; uncovered points must carry clone id -1; at support == threshold the command "
                                 "must still complete.")
-    ctx.trust("M-LAMINAR: clades with support > 1/2 are pairwise nested or disjoint (pen and paper)")
+    ctx.trust("M-LAMINAR: the clades of ONE tree are pairwise nested or disjoint and non-empty (tree structure; get_clades is not under contract); the counting half is Lean-checked in the thorough tier (MLaminar.lean)")
+    ctx.trust("get_clades(tree) returns the set of clades of the tree; networkx DiGraph; relabel, clean_tree, get_tree_from_consensus_graph are outside the contracts (bounded stand-in only)")
     from bounded import commands as BC
 
     r = BC.run_c16(ctx.tier, ctx.seed)
